@@ -520,6 +520,8 @@ func (ex *executor) serve(idx int, st *Step) *Exchange {
 	if st.Chunk < 0 {
 		body.Rng = rt.NewRand(rt.Mix(ex.plan.RunSeed, uint64(idx), 0xb0d1))
 	}
+	// bodies of announced length end the way net/http ends them in most runs
+	body.EOFWithLast = !st.Chunked && rt.Mix(ex.plan.RunSeed, 0xe0f)%4 != 0
 	if g := ex.gate; g != nil {
 		g.FaultBody = body
 		req.Body = g
@@ -761,6 +763,15 @@ func (ex *executor) resolve(idx int, st *Step) *Step {
 	}
 	for i, h := range c.Headers {
 		v := abs(h[1])
+		if strings.Contains(v, "${tagin:current}") {
+			// the text of the current tag without its quotes, to build OTHER
+			// well-formed tags that resemble it
+			in := "vsim-unknown-fallback"
+			if len(ex.curTag) >= 2 && strings.HasPrefix(ex.curTag, "\"") && strings.HasSuffix(ex.curTag, "\"") {
+				in = ex.curTag[1 : len(ex.curTag)-1]
+			}
+			v = strings.ReplaceAll(v, "${tagin:current}", in)
+		}
 		if i := strings.Index(v, "${tag:current}"); i >= 0 && v != "${tag:current}" {
 			// the current tag embedded in a larger (malformed or list) value
 			cur := ex.curTag
